@@ -614,6 +614,10 @@ Next:
           }
         }
       }
+      else {
+        // The number of operands doesn't match this signature.
+        continue;
+      }
 
       if (j == op_count) {
         if (!local_imm_out_of_range) {
